@@ -378,6 +378,26 @@ func checkC22(c *Ctx, r *Report) {
 				okRet = false
 			}
 		}
+		// what is handed to the sorter is that copy, never the shared list itself
+		// (Locations runs under a read lock: sorting the shared slice in place lets
+		// concurrent readers permute it under each other)
+		sortsCopy, nsort := true, 0
+		for _, st := range storesToField(gon, pkgHRW+".RendezvousNodesByScore.nodes") {
+			nsort++
+			if sorted == nil || st.Val != sorted {
+				sortsCopy = false
+			}
+		}
+		for _, cs := range callsInNamed(gon, "sort.Slice", "sort.SliceStable") {
+			nsort++
+			if sorted == nil || !mentions(cs.Instr.Common().Args[0], func(v ssa.Value) bool { return v == sorted }, 3) {
+				sortsCopy = false
+			}
+		}
+		if nsort == 0 {
+			sortsCopy = false
+		}
+		cp = cp && sortsCopy
 		r.Check(cp && okRet && len(storesToField(gon, tRH+".Nodes")) == 0, r2, gon, "sorts a copy", nil, "make+copy, result is (a prefix of) the copy", "GetOrderedNodes sorts the shared node list in place or returns something else than the sorted copy")
 	}
 	if an := c.Func("(*" + tRH + ").AddNode"); an != nil {
